@@ -315,13 +315,13 @@ func checkDriver(c *Ctx, g *ebnfGrammar, rule string) *driverFacts {
 		}
 		if controlledByEq(b, d.typ, d.kAccept) {
 			accRet++
-			if !isNilConst(ret.Results[0]) {
+			if !isNilConst(retOperand(ret, 0)) {
 				accOK = false
 			}
 		}
 		if controlledNil(b, d.err, true) && !controlledByEq(b, d.typ, d.kShift) && !controlledByEq(b, d.typ, d.kReduce) {
 			errRet++
-			if isNilConst(ret.Results[0]) {
+			if isNilConst(retOperand(ret, 0)) {
 				errOK = false
 			}
 		}
